@@ -442,6 +442,43 @@ fn run<I: Idx>(depth: usize, rep: &mut Report, only: &Option<String>) {
     explore::<M<I>>(&format!("C19|{}", I::NAME), &ops, depth, rep);
 }
 
+/// merges between indices of very different sizes (a merge may take another path when one side is much larger):
+/// `to` holds the keys 0..to_n, `from` the keys 0..from_n (shared keys carry the same value on both sides, so the
+/// expected result is the union whatever the index type does with duplicates)
+fn bulk<I: Idx>(name: &str, full: bool, rep: &mut Report, only: &Option<String>) {
+    if only.as_ref().map_or(false, |o| !o.starts_with(name)) { return; }
+    for to_n in 0..=3u32 {
+        for from_n in 0..=40u32 {
+            for disjoint in [false, true] {
+                let r = vcore::report::catch(|| {
+                    let (mut to, mut from) = (I::new(), I::new());
+                    let off = if disjoint { 1000 } else { 0 };
+                    for k in 0..to_n { to.insert_mut(k, 100 + k as usize); }
+                    for k in 0..from_n { from.insert_mut(k + off, if full || disjoint { 100 + (k + off) as usize } else { 200 + k as usize }); }
+                    I::mv(&mut from, &mut to);
+                    let mut got: Vec<(K, Vec<V>)> = to.all().into_iter().map(|(k, mut v)| { v.sort(); v.dedup(); (k, v) }).collect();
+                    got.sort();
+                    let mut want: std::collections::BTreeMap<K, Vec<V>> = Default::default();
+                    for k in 0..to_n { want.entry(k).or_default().push(100 + k as usize); }
+                    for k in 0..from_n { want.entry(k + off).or_default().push(if full || disjoint { 100 + (k + off) as usize } else { 200 + k as usize }); }
+                    let want: Vec<(K, Vec<V>)> = want.into_iter().map(|(k, mut v)| { v.sort(); v.dedup(); (k, v) }).collect();
+                    let lookups_ok = want.iter().all(|(k, v)| to.get(*k).map(|mut g| { g.sort(); g.dedup(); g }) == Some(v.clone()));
+                    (got, want, lookups_ok, from.all().len())
+                });
+                rep.states += 1; rep.transitions += 1; rep.executions += 1;
+                let case = format!("to holds {} keys, from holds {} keys ({})", to_n, from_n, if disjoint { "disjoint" } else { "overlapping" });
+                match r {
+                    Err(p) => rep.violate(format!("C19|{}|bulk-merge|panic", name), format!("{}: move_index_contents panicked when {}: {}", name, case, p), json!({"type": name, "bulk": case})),
+                    Ok((got, want, lookups_ok, left)) => {
+                        if got != want || !lookups_ok { rep.violate(format!("C19|{}|bulk-merge|contents", name), format!("{}: after move_index_contents ({}) the target holds {:?}, expected {:?} (lookups ok: {})", name, case, got.iter().take(6).collect::<Vec<_>>(), want.iter().take(6).collect::<Vec<_>>(), lookups_ok), json!({"type": name, "bulk": case})); }
+                        if left != 0 { rep.violate(format!("C19|{}|bulk-merge|source-not-emptied", name), format!("{}: after move_index_contents ({}) the source still holds {} keys", name, case, left), json!({"type": name, "bulk": case})); }
+                    }
+                }
+            }
+        }
+    }
+}
+
 fn main() {
     let start = std::time::Instant::now();
     silence_panics();
@@ -475,7 +512,11 @@ fn main() {
     run::<CRelFullIndex<K, V>>(dc, &mut rep, &only);
     run::<CLatIndex<K, V>>(dc, &mut rep, &only);
     run::<CRelNoIndex<V>>(dc, &mut rep, &only);
-    rep.rule = "every operation sequence (insert into new/delta/total via both write traits, insert-if-absent, merge_delta_to_total_new_to_delta, move_index_contents in all six directions, freeze/unfreeze) up to the depth bound; after every operation index_get (present/absent keys), iter_all, contains_key, c_ variants, is_empty and the combined total+delta view are compared with a reference multimap; non-trivial = history with a merge/move and >= 2 inserts".into();
+    bulk::<RelIndexType1<K, V>>("RelIndexType1", false, &mut rep, &only);
+    bulk::<ToRel>("ToRelIndexType", false, &mut rep, &only);
+    bulk::<RelFullIndexType<K, V>>("RelFullIndexType", true, &mut rep, &only);
+    bulk::<LatticeIndexType<K, V>>("LatticeIndexType", false, &mut rep, &only);
+    rep.rule = "every operation sequence (insert into new/delta/total via both write traits, insert-if-absent, merge_delta_to_total_new_to_delta, move_index_contents in all six directions, freeze/unfreeze) up to the depth bound; after every operation index_get (present/absent keys), iter_all, contains_key, c_ variants, is_empty and the combined total+delta view are compared with a reference multimap; plus, for the serial index types, move_index_contents between indices of 0-3 and 0-40 keys (overlapping and disjoint); non-trivial = history with a merge/move and >= 2 inserts".into();
     let code = rep.finish(start);
     std::process::exit(code);
 }
